@@ -1017,6 +1017,12 @@ def t_soup(rng):
             fl = _fl_for(rng, num + den) if rng.random() < 0.3 else "F"
             ops.append(_mkop(num, den, fl, rng.choice(HOWS)))
             lens.append([len(num), len(den)])
+    if rng.random() < 0.3:
+        # a levinson_durbin call that raises ParCorError (zero prediction error met): its id stays unused and
+        # nothing else may change
+        k = rng.choice([F(1), F(-1)])
+        bad = c11.acorr_from_ks([F(1, 2), k][rng.choice([0, 1]):], F(rng.choice([1, 2, 3]))) + [F(rng.randint(-2, 2))]
+        ops.append(_lev(bad, None, _fl_for(rng, bad)))
     for _ in range(rng.randint(3, 9)):
         t = rng.randrange(nf)
         u = rng.random()
